@@ -48,6 +48,28 @@ const (
 	sigSemantics = "semantics-differ"
 )
 
+// openFindings: recorded defects of the unchanged /repo. A failure carrying one of these signatures on
+// a case that satisfies the finding's precondition is counted as Excluded (search continues behind it)
+// unless the case is Strict. When a finding is repaired in /repo, delete its line here (and move its
+// replay out of known/): from then on the same failure is a violation again. For experiments the list can
+// be shortened without editing: VERIF_C12_FIXED="sig,sig,…".
+var openFindings = map[string]bool{
+	// sigD8 and sigShLinks have been repaired in /repo (see known_findings.json): judged again
+	sigHoist:    true,
+	sigJe:       true,
+	sigMultiRet: true,
+	sigGoValue:  true,
+}
+
+func isOpen(sig string) bool {
+	for _, f := range strings.Split(os.Getenv("VERIF_C12_FIXED"), ",") {
+		if strings.TrimSpace(f) == sig {
+			return false
+		}
+	}
+	return openFindings[sig]
+}
+
 var schedPlans = []string{"", "", "assigner.notify=1", "assigner.notify=3,monitor.done=2", "assigner.notify=300us",
 	"assigner.notify=1000us", "monitor.done=500us"}
 
@@ -131,6 +153,17 @@ func firstErrorLine(stdout, stderr string) string {
 	return "other"
 }
 
+func clip(m map[int][]uint64) map[int][]uint64 {
+	r := map[int][]uint64{}
+	for k, v := range m {
+		if len(v) > 32 {
+			v = v[:32]
+		}
+		r[k] = v
+	}
+	return r
+}
+
 func dumpHead(d string) string {
 	lines := strings.Split(d, "\n")
 	if len(lines) > 60 {
@@ -170,10 +203,13 @@ func prop(c Case) pbt.Outcome {
 	// the case only, unless the compiler itself is schedule-dependent — which is the property)
 	runs := make([]RunResult, len(c.Plans))
 	var wg sync.WaitGroup
+	sem := make(chan struct{}, 8)
 	for i := range c.Plans {
 		wg.Add(1)
 		go func(i int) {
 			defer wg.Done()
+			sem <- struct{}{}
+			defer func() { <-sem }()
 			runs[i] = RunBondgo(c.Src, c.Rsize, c.Mpm, c.Plans[i])
 		}(i)
 	}
@@ -188,12 +224,12 @@ func prop(c Case) pbt.Outcome {
 		for r.Status == "hang:D8" {
 			d8 = true
 			lab("term:D8-hang-observed")
-			if c.Strict {
+			if c.Strict || !isOpen(sigD8) {
 				return finish(pbt.Outcome{Fail: pbt.Failf(sigD8, "bondgo does not terminate (plan %d: GOMAXPROCS=%d VERIF_BONDGO_SCHED=%q): Var_assigner is blocked sending a usage notification, Usage_Monitor has already exited, main is blocked on the allocator.\n--- source\n%s--- goroutine dump\n%s",
 					i, c.Plans[i].GoMaxProcs, c.Plans[i].Sched, c.Src, dumpHead(r.Dump))})
 			}
 			tries++
-			if tries > 3 {
+			if tries > 1 {
 				break
 			}
 			*r = RunBondgo(c.Src, c.Rsize, c.Mpm, c.Plans[i])
@@ -223,7 +259,7 @@ func prop(c Case) pbt.Outcome {
 			if c.Mpm && facts.Channels >= 2 && onlySharedLinksOrderDiffers(base, runs[i]) {
 				f := pbt.Failf(sigShLinks, "the bondmachine JSON differs between two runs of the compiler in the order of a processor's shared-object links (which is what numbers its channels ch0, ch1, …): %s vs %s\n--- source\n%s",
 					sharedLinks(base.Machine), sharedLinks(runs[i].Machine), c.Src)
-				if c.Strict {
+				if c.Strict || !isOpen(sigShLinks) {
 					return finish(pbt.Outcome{Fail: f})
 				}
 				return finish(pbt.Outcome{Excluded: sigShLinks})
@@ -241,6 +277,11 @@ func prop(c Case) pbt.Outcome {
 	if base.Status != "ok" {
 		why := firstErrorLine(base.Stdout, base.Stderr)
 		lab("verdict:rejected:" + why)
+		if base.Status == "crash" && len(facts.UnsupportedOps) == 0 && len(facts.MultiReturn) == 0 {
+			// a clean "Error:" rejection is always an acceptable answer; a Go runtime panic of the compiler
+			// on a program made only of constructs it implements is not
+			return finish(pbt.Outcome{Fail: pbt.Failf("compiler-panic", "bondgo panics (exit %d) on a program that uses only constructs it implements\n--- source\n%s--- stderr\n%s", base.Exit, c.Src, dumpHead(base.Stderr))})
+		}
 		if os.Getenv("VERIF_C12_DEBUG") != "" && (base.Status == "crash" || len(facts.UnsupportedOps) == 0) {
 			fmt.Printf("DEBUG rejected (%s) rsize=%d mpm=%v\n%s--- stdout\n%s--- stderr\n%s\n", base.Status, c.Rsize, c.Mpm, c.Src, base.Stdout, dumpHead(base.Stderr))
 		}
@@ -257,7 +298,7 @@ func prop(c Case) pbt.Outcome {
 	// ---- (iii) semantics
 	known := func(sig string, f *pbt.Failure) pbt.Outcome {
 		f.Sig = sig
-		if c.Strict {
+		if c.Strict || !isOpen(sig) {
 			return finish(pbt.Outcome{Fail: f})
 		}
 		return finish(pbt.Outcome{Excluded: sig})
@@ -355,8 +396,8 @@ func prop(c Case) pbt.Outcome {
 			}
 		}
 		if mismatch != "" {
-			f := pbt.Failf(sigSemantics, "register size %d, processor %d (%s): %s\nexpected streams %v\nmachine streams  %v\n--- source\n%s--- assembly %d\n%s",
-				c.Rsize, k, rr.Func, mismatch, rr.Streams, got, c.Src, k, numbered(base.Asm[k]))
+			f := pbt.Failf(sigSemantics, "register size %d, processor %d (%s): %s\nexpected streams (per output, first 32) %v\nmachine streams  (per output, first 32) %v\n--- source\n%s--- assembly %d\n%s",
+				c.Rsize, k, rr.Func, mismatch, clip(rr.Streams), clip(got), c.Src, k, numbered(base.Asm[k]))
 			switch {
 			case len(facts.HoistedIncDec) > 0:
 				return known(sigHoist, f)
@@ -575,7 +616,9 @@ func main() {
 	}
 }
 `}},
-	{"shared-links-map-order", "compile_full", sigShLinks, Case{Rsize: 8, Mpm: true, Plans: manyPlans(12), Src: hdr + `func w1(c chan uint8) {
+	// Go starts the iteration of a two-entry map at a random slot of its 8-slot bucket: the second order shows up in
+	// about one run out of eight, hence the many plans
+	{"shared-links-map-order", "compile_full", sigShLinks, Case{Rsize: 8, Mpm: true, Plans: manyPlans(40), Src: hdr + `func w1(c chan uint8) {
 	var reg_p uint8
 	for {
 		c <- reg_p
